@@ -172,6 +172,66 @@ def scripted(env: Env, hid: str, script: list[Outcome], *, cursor: str | None = 
     return fn
 
 
+def daemon_fn(env: Env, hid: str, reaction: str = 'obeys', lifetime: float | None = None,
+              exit_delay: float = 0.0) -> Callable[..., Any]:
+    """A daemon body with a scripted reaction to being stopped.
+
+    obeys:   returns `exit_delay` after the stop flag is set
+    cancel:  ignores the flag, ends only when cancelled (`exit_delay` after the cancellation)
+    ignore:  ignores the flag and swallows cancellations (can only be abandoned)
+    exits:   returns on its own after `lifetime`"""
+    from kv.vloop import OPID
+
+    async def fn(**kw: Any) -> None:
+        stopped = kw['stopped']
+        body = kw['body']
+        uid, name = body['metadata'].get('uid'), body['metadata']['name']
+        op = OPID.get()
+        inst = env.count(f'daemon-inst:{hid}')
+        env.log('daemon-enter', id=hid, uid=uid, name=name, op=op, inst=inst, retry=kw.get('retry'))
+
+        async def flagwatch() -> None:
+            await stopped.wait()
+            env.log('daemon-flag', id=hid, uid=uid, name=name, op=op, inst=inst, reason=str(stopped.reason))
+        watcher = asyncio.create_task(flagwatch(), name=f'flagwatch {hid} {inst}')
+        how = 'returned'
+        try:
+            if reaction == 'exits':
+                await asyncio.sleep(lifetime or 0)
+            elif reaction == 'obeys':
+                await stopped.wait()
+                if exit_delay:
+                    await asyncio.sleep(exit_delay)
+            elif reaction == 'cancel':
+                try:
+                    await asyncio.Event().wait()
+                except asyncio.CancelledError:
+                    how = 'cancelled'
+                    env.log('daemon-cancelled', id=hid, uid=uid, name=name, op=op, inst=inst)
+                    if exit_delay:
+                        try:
+                            await asyncio.sleep(exit_delay)
+                        except asyncio.CancelledError:
+                            pass
+                    raise
+            elif reaction == 'ignore':
+                while True:
+                    try:
+                        await asyncio.Event().wait()
+                    except asyncio.CancelledError:
+                        env.log('daemon-cancelled', id=hid, uid=uid, name=name, op=op, inst=inst)
+                        if env.closed:
+                            how = 'teardown'
+                            raise
+            else:
+                raise RuntimeError(reaction)
+        finally:
+            watcher.cancel()
+            env.log('daemon-exit', id=hid, uid=uid, name=name, op=op, inst=inst, how=how)
+    fn.__name__ = fn.__qualname__ = hid
+    return fn
+
+
 def _deep_update(dst: Any, src: dict) -> None:
     for k, v in src.items():
         if isinstance(v, dict):
